@@ -8,11 +8,14 @@ package req
 // line-protocol encoders.
 
 import (
+	"encoding/json"
 	"math/rand"
 	"net"
 	"net/http"
 	"net/netip"
 	"net/url"
+	"os"
+	"path/filepath"
 	"strconv"
 	"strings"
 	"testing"
@@ -29,17 +32,31 @@ const c11LegacyClass = "hostident-legacy"
 type c11Lane struct {
 	*verifh.Session
 	t    *testing.T
+	lane string
 	seen map[string]int
 }
 
 func c11New(t *testing.T, lane, rule string) *c11Lane {
-	return &c11Lane{Session: verifh.New(t, "C11", lane, rule), t: t, seen: map[string]int{}}
+	return &c11Lane{Session: verifh.New(t, "C11", lane, rule), t: t, lane: lane, seen: map[string]int{}}
 }
 
 func (l *c11Lane) Count(k string) { l.seen[k]++; l.Session.Count(k) }
 
 func (l *c11Lane) FinishRequire(buckets ...string) {
 	l.Session.Finish()
+	// Some buckets depend on how the implementation behaves (outcomes reached). When the lane has
+	// mismatches to report, a bucket the changed behaviour made unreachable must not turn the
+	// finding into a "broken check": the mismatches are the result.
+	if dir := os.Getenv("VERIF_OUT"); dir != "" {
+		if b, err := os.ReadFile(filepath.Join(dir, "C11."+l.lane+".json")); err == nil {
+			var res struct {
+				N int `json:"n_mismatch"`
+			}
+			if json.Unmarshal(b, &res) == nil && res.N > 0 {
+				return
+			}
+		}
+	}
 	for _, b := range buckets {
 		if l.seen[b] == 0 {
 			l.t.Fatalf("verif: required generator bucket %q not reached - no tests to run for it", b)
